@@ -129,7 +129,22 @@ inline Plan Gen(uint64_t seed)
             g.intent[c].insert(pat); g.intentNorm[c][norm] = pat;
          }
          const std::string f = ((useFilters)&&(wl.pct(45))) ? Filter(wl) : "-";
-         p.push_back(sendPfx + "sub " + I(g.opid++) + " " + (((g.quietOk)&&(wl.oneIn(8))) ? "1" : "0") + " " + Esc(pat) + " " + f);
+         std::string more;
+         if (wl.oneIn(5))
+         {
+            // several SUBSCRIBE: fields in one SETPARAMETERS Message, filtered and unfiltered ones mixed
+            const int extra = 1 + (int) wl.below(2);
+            for (int e=0; e<extra; e++)
+            {
+               const std::string pat2 = Pattern(wl, hosts); const std::string norm2 = match::Normalise(pat2);
+               auto n2 = g.intentNorm[c].find(norm2);
+               if (((n2 != g.intentNorm[c].end())&&(n2->second != pat2))||(pat2 == pat)) continue;
+               g.intent[c].insert(pat2); g.intentNorm[c][norm2] = pat2;
+               const std::string f2 = (useFilters) ? ((f == "-") ? (wl.pct(70) ? Filter(wl) : std::string("-")) : (wl.pct(70) ? std::string("-") : Filter(wl))) : std::string("-");
+               more += " " + Esc(pat2) + " " + f2;
+            }
+         }
+         p.push_back(sendPfx + "sub " + I(g.opid++) + " " + (((g.quietOk)&&(wl.oneIn(8))) ? "1" : "0") + " " + Esc(pat) + " " + f + more);
       }
       else if (k < 66)
       {
